@@ -54,6 +54,9 @@ type opRec struct {
 	fails int
 	// wasHeld: the operation was at some point held for an unresolved reference.
 	wasHeld bool
+	// unacked: resolved (applied or dropped) without a result because its stream died.
+	unacked bool
+	seq     int
 }
 
 type session struct {
@@ -82,6 +85,7 @@ type env struct {
 	viol  []Violation
 	step  int
 
+	opSeq         int
 	allOps        map[uint64]*opRec // by id, across sessions (ids are unique per run unless a family says otherwise)
 	perNIFlush    bool
 	maxElec       [2]uint64
@@ -369,7 +373,7 @@ func (e *env) afterQuiescence(s *session) {
 	var modelHeld []uint64
 	for _, id := range ids {
 		rec := e.allOps[id]
-		if rec.state == opProgrammed && e.sess[rec.sess].fibAck && rec.fib == 0 {
+		if rec.state == opProgrammed && e.sess[rec.sess].fibAck && rec.fib == 0 && !rec.unacked {
 			e.report("C06", "missing-fib-ack", "RIB_PROGRAMMED without FIB_PROGRAMMED on a FIB-ack session", describeOp(rec.op), false)
 		}
 		if rec.state != opSent && rec.state != opHeld {
